@@ -1774,7 +1774,9 @@ class Element(Mapping[str, Attribute]):
                         if subelem is NULL:  # It's a singleton.
                             file.write(pack('<i', -1))
                         elif subelem.is_stub:
+                            # Stub references are followed by the UUID, as a string.
                             file.write(pack('<i', -2))
+                            file.write(str(subelem.uuid).encode('ascii') + b'\0')
                         else:
                             file.write(pack('<i', elem_to_ind[subelem.uuid]))
                 else:
